@@ -89,7 +89,50 @@ Require Import RP.Model.Cobs RP.Model.Frame RP.Lemmas.FrameUsart RP.Lemmas.Frame
 Lemma wf_frame_len f : wf_frame f = true -> length (f_data f) = 8%nat.
 Proof. intros H. destruct (wf_frame_parts f H) as [_ [_ [_ [Hl _]]]]. exact Hl. Qed.
 
-Lemma reencode_flags_zero f : wf_frame f = true -> reencode_flags f = [0; 0; 0; 0].
+Require Import RP.Lemmas.CobsLemmas.
+Lemma small_frame_wf ne st mf la i addr : i <= 2 -> addr < 65536 -> wf_frame (mkF ne st mf la i addr 1 [i mod 256; 0; 0; 0; 0; 0; 0; 0]) = true.
+Proof.
+  intros Hi Ha. unfold wf_frame, zeros_from, bytes, byte. cbn [f_dlen f_id f_addr f_data length N.to_nat Pos.to_nat Pos.iter_op skipn forallb Nat.eqb].
+  assert (E1: (i <? 4096) = true) by lia. assert (E2: (addr <? 65536) = true) by lia. assert (E3: (i mod 256 <? 256) = true) by lia.
+  rewrite E1, E2, E3. reflexivity.
+Qed.
+Lemma feed_wf : forall rest b0, (forall b, b0 = Val b -> wf_builder b) -> b0 <> Panic -> b0 <> Hang -> Forall (fun g => wf_frame g = true) rest ->
+  (forall b, fold_left feed_frame rest b0 = Val b -> wf_builder b) /\ fold_left feed_frame rest b0 <> Panic /\ fold_left feed_frame rest b0 <> Hang.
+Proof.
+  induction rest as [|g rest IH]; intros b0 Hb Hp Hh Hf; [cbn; auto|].
+  apply Forall_cons_iff in Hf. destruct Hf as [Hg Hrest]. cbn [fold_left]. apply IH; [| | |exact Hrest].
+  - intros b E. destruct b0 as [b'|e| |]; cbn [feed_frame] in E; try discriminate; try contradiction.
+    pose proof (offer_wf b' g (Hb b' eq_refl) Hg) as Hw. unfold offer in Hw. rewrite E in Hw. exact Hw.
+  - destruct b0 as [b'|e| |]; cbn [feed_frame]; try discriminate; try contradiction. apply add_frame_no_panic.
+  - destruct b0 as [b'|e| |]; cbn [feed_frame]; try discriminate; try contradiction. apply add_frame_no_panic.
+Qed.
+Lemma builder_new_no_panic s : wf_frame s = true -> builder_new s <> Panic /\ builder_new s <> Hang.
+Proof.
+  intros Hw. destruct (wf_frame_parts s Hw) as [_ [Hi _]]. unfold builder_new.
+  destruct (negb (f_st s)); [split; discriminate|]. destruct (f_last s); [|split; discriminate].
+  assert (E: (f_id s + 1 <? 65536) = true) by lia. rewrite E. split; discriminate.
+Qed.
+Lemma build_flag_zero f : wf_frame f = true -> build_flag f = 0.
+Proof.
+  intros Hw. destruct (wf_frame_parts f Hw) as [_ [Hi [Ha _]]]. unfold build_flag.
+  destruct (around f) as [[s rest]|] eqn:Ear; [|reflexivity].
+  assert (Hs: wf_frame s = true /\ Forall (fun g => wf_frame g = true) rest).
+  { unfold around in Ear. destruct (f_st f).
+    - destruct (f_last f && (f_id f <=? 2)) eqn:E; [|discriminate]. apply andb_prop in E. destruct E as [_ E]. inversion Ear; subst s rest. split; [exact Hw|].
+      apply Forall_forall. intros g Hg. apply in_map_iff in Hg. destruct Hg as [i [<- Hin]]. apply In_firstn' in Hin.
+      unfold cont_frame. apply small_frame_wf; [cbn in Hin; lia|exact Ha].
+    - destruct ((1 <=? f_id f) && (f_id f <=? 2)) eqn:E; [|discriminate]. apply andb_prop in E. destruct E as [E1 E2]. inversion Ear; subst s rest. split.
+      + unfold start_for. apply small_frame_wf; [lia|exact Ha].
+      + apply Forall_app. split; [|constructor; [exact Hw|constructor]].
+        apply Forall_forall. intros g Hg. apply in_map_iff in Hg. destruct Hg as [i [<- Hin]]. apply In_firstn' in Hin.
+        unfold cont_frame. apply small_frame_wf; [cbn in Hin; lia|exact Ha]. }
+  destruct Hs as [Hsw Hrw]. destruct (builder_new_no_panic s Hsw) as [Hnp Hnh].
+  destruct (feed_wf rest (builder_new s) (fun b E => builder_new_wf s b Hsw E) Hnp Hnh Hrw) as [F1 [F2 F3]].
+  destruct (fold_left feed_frame rest (builder_new s)) as [b|e| |]; try contradiction; [|reflexivity].
+  destruct (build_spec b (F1 b eq_refl)) as [B1 B2].
+  destruct (N.eq_dec (nlen (b_frames b)) (b_exp b)) as [E|E]; [rewrite (B1 E)|rewrite (B2 E)]; reflexivity.
+Qed.
+Lemma reencode_flags_zero f : wf_frame f = true -> reencode_flags f = [0; 0; 0; 0; 0].
 Proof.
   intros Hw. unfold reencode_flags.
   rewrite usart_layout by assumption. rewrite to_bxcan_layout by assumption.
@@ -98,7 +141,7 @@ Proof.
     destruct (wf_frame_parts f Hw) as [_ [Hi _]]. assert (E: (f_id f + 1 <? 65536) = true) by lia. rewrite E. reflexivity. }
   rewrite Hn. cbn [pflag].
   match goal with |- context [builder_new ?s] => assert (Hb: exists b, builder_new s = Val b) by (unfold builder_new; cbn [f_st f_last f_id negb]; eexists; reflexivity) end.
-  destruct Hb as [b Hb]. rewrite Hb. destruct (add_frame_no_panic b f) as [H1 H2].
+  destruct Hb as [b Hb]. rewrite Hb. destruct (add_frame_no_panic b f) as [H1 H2]. rewrite (build_flag_zero f Hw).
   destruct (add_frame b f); try contradiction; reflexivity.
 Qed.
 
